@@ -10,12 +10,13 @@ From CG Require Export Base.Cases Model.Miter Model.FastEval.
 From CG Require Model.Lint.
 Open Scope string_scope.
 
+(* sv: what sat.solve(miter, {"sat": True}) answered on the returned miter (Some false = False / UNSAT, Some true = a model) *)
 Inductive call := Call (Ca : Circuit) (Cbo : option Circuit) (So Eo : option (list string)) (obs : res Circuit)
-                         (So' Eo' : option (list string)).
+                         (So' Eo' : option (list string)) (sv : option bool).
 Inductive case := CMiter (l : list call).
 
 Definition agree1 (k : call) : bool :=
-  let 'Call Ca Cbo So Eo obs _ _ := k in bool_decide (miter Ca Cbo So Eo = obs).
+  let 'Call Ca Cbo So Eo obs _ _ _ := k in bool_decide (miter Ca Cbo So Eo = obs).
 Definition agree (k : case) : bool := let 'CMiter l := k in forallb agree1 l.
 
 (* the collection the caller passed still holds the same elements after the call *)
@@ -41,9 +42,18 @@ Definition precond (Ca Cb : Circuit) (S E : list string) : bool :=
   bool_decide (size (sS ∪ smap (pre "c0") (dom ga) ∪ smap (pre "c1") (dom gb) ∪ {["sat"]} ∪ smap (pre "dif") sE)
                = (size sS + size (dom ga) + size (dom gb) + 1 + size sE)%nat).
 
+(* is there a valuation of the free nodes under which `sat` evaluates to 1?  (exhaustive; every table certified by sweepc) *)
+Definition sat_possible (gm : circuit) : bool :=
+  negb (sweepc gm (λ ix, {| s_progs := []; s_eqs := []; s_pred := λ v, negb (v (ix "sat")) |})).
+(* "solve(miter, {sat: True}) is False iff ...": the solver's verdict on the returned miter is the exhaustive verdict *)
+Definition solve_ok (obs : res Circuit) (sv : option bool) : bool :=
+  match obs, sv with
+  | Ok M, Some b => negb (acyclicb (c_g M)) || eqb b (sat_possible (c_g M))
+  | _, _ => true end.
+
 Definition holds1 (k : call) : bool :=
-  let 'Call Ca Cbo So Eo obs So' Eo' := k in
-  same_choice So So' && same_choice Eo Eo' &&
+  let 'Call Ca Cbo So Eo obs So' Eo' sv := k in
+  same_choice So So' && same_choice Eo Eo' && solve_ok obs sv &&
   let Cb := second Ca Cbo in
   let S := miter_S Ca Cb So in let E := miter_E Ca Cb Eo in
   let sS : gset string := list_to_set S in let sE : gset string := list_to_set E in
